@@ -65,11 +65,19 @@ def h_suitesparse(seq):
             def _solve(self, A, F, N, b):
                 log.append(('solve', A.version))
                 b[:] = float(1000 + 100 * A.version + 10 * N.version + F.pattern)
-        sing = {v: bool(I.boolean(f'matrix_{v}_is_singular')) for v in sorted({v for _, v in seq})}
+        sing = {v: bool(I.boolean(f'matrix_{v}_is_singular')) for v in sorted({it[1] for it in seq})}
         S = Model()
         out = []
-        for k, (p, v) in enumerate(seq):
-            A = Mat(p, v)
+        prev = None
+        for k, item in enumerate(seq):
+            p, v = item[0], item[1]
+            same_object = len(item) > 2 and item[2] and prev is not None and prev.pattern == p
+            if same_object:
+                A = prev                    # the caller changed the values of the SAME matrix object in place
+                A.version = v
+            else:
+                A = Mat(p, v)
+            prev = A
             b = kvxopt.matrix([0.0, 0.0])
             del log[:]
             x = S.solve(A, b)
@@ -212,7 +220,7 @@ def job(spec):
     logging.getLogger('andes').setLevel(60)
     kind, arg = spec
     if kind == 'ss':
-        return H.run('SuiteSparseSolver.solve ' + ' > '.join(f'(pattern {p}, version {v})' for p, v in arg), h_suitesparse(arg),
+        return H.run('SuiteSparseSolver.solve ' + ' > '.join(f'(pattern {it[0]}, version {it[1]}' + (', same object' if len(it) > 2 and it[2] else '') + ')' for it in arg), h_suitesparse(arg),
                      region=lambda v, c: c.split(': ')[-1])
     if kind == 'sp':
         return H.run('SpSolve.solve ' + ' > '.join(f'(version {v}, {r})' for v, r in arg), h_spsolve(arg), region=lambda v, c: c.split(': ')[-1])
@@ -254,6 +262,8 @@ def main():
             if not thorough and n == 3 and (hash(seq) + core.seed()) % 3:
                 continue
             jobs.append(('ss', seq))
+    for seq in (((0, 0), (0, 1, True)), ((0, 0), (0, 1, True), (0, 2, True)), ((0, 0), (1, 2), (1, 1, True)), ((0, 1), (0, 1, True))):
+        jobs.append(('ss', seq))
     for seq in itertools.product([(0, 'none'), (1, 'none'), (1, 'factorize'), (2, 'new_A')], repeat=2):
         jobs.append(('sp', seq))
     jobs += [('step', (h_, lc)) for h_ in (0, 1) for lc in (True, False)] + [('nr', m) for m in ('NR', 'dishonest')] + [('ipadd', 0)]
